@@ -1,5 +1,5 @@
 (* Properties/C09.v — the ledger is a well-formed DAG of self-authenticating vertices. *)
-From Verif Require Import U64 Spice RepoConstants Ledger ListFacts LedgerInv LedgerGraph LedgerReach.
+From Verif Require Import U64 Spice RepoConstants Ledger ListFacts LedgerInv LedgerGraph LedgerReach LoadWitness.
 From Coq Require Import NArith Relations.
 
 (* Acyclic, on every reachable ledger: no vertex reaches itself along parent->child edges. *)
@@ -38,3 +38,13 @@ Theorem C09_unverified_never_admitted : forall L v b, v_ok v = false ->
   (forall rep, exists r, add_leaf_mem L v rep b = (L, r) /\ r <> ROk /\ r <> RParentMissing).
 Proof. exact unverified_never_admitted. Qed.
 Print Assumptions C09_unverified_never_admitted.
+
+(* "... carries weight max(parent weights) + 1" fails at the top of the uint64 range (KNOWN-FINDING created-weight-wrapped):
+   a valid gossiped vertex of weight 2^64-1 is admitted (the weight window has no upper bound) and the vertex the node
+   creates on it weighs 0. *)
+Theorem C09_created_weight_wraps_refuted :
+  snd (add_leaf ww_src ww_big None) = ROk /\
+  exists L' v, create_leaf ww_L ww_t [11%N] [11%N] 12%N true None = (L', ROk, Some v) /\
+               v_left v = 11%N /\ v_weight ww_big = 18446744073709551615%Z /\ v_weight v = 0%Z.
+Proof. exact created_weight_wraps. Qed.
+Print Assumptions C09_created_weight_wraps_refuted.
